@@ -343,7 +343,8 @@ def run_units(pid, tier, scratch, want_canary):
     """-> dict unit name -> result."""
     results = {}
     for uname in propdefs.PROPS[pid].get('units', []):
-        unit = getattr(units, uname + '_unit')()
+        ufn = getattr(units, uname + '_unit')
+        unit = ufn(tier, scratch) if uname == 'parser' else ufn()
         try:
             g, path, gen_s = build_unit(unit, scratch)
         except Undecided as e:
